@@ -344,6 +344,9 @@ pub fn run(args: &Args) -> i32 {
             rec.distinct(fnv(&weights));
         }
     });
+    rec.sample(json!({"part": "encoder", "literals": "200 symbols placed at the end of the byte range, geometric counts, shuffled", "checks": ["Kraft sum", "prefix free", "depth <= 11", "description -> decoder lengths", "description -> model lengths", "1 and 4 streams -> model decoder", "literals section -> real section decoder", "frame -> reference decoder"]}));
+    rec.sample(json!({"part": "decoder", "form": "direct", "weights": [1, 1, 2, 3], "rule": format!("{:?}", rule(&[1, 1, 2, 3]))}));
+    rec.sample(json!({"part": "decoder", "form": "direct", "weights": [1, 2, 2], "rule": format!("{:?}", rule(&[1, 2, 2]))}));
     rec.set_extra("exhaustive", json!(false));
     rec.set_extra("exhaustive_direct_weight_vectors_up_to_length", json!(max_len));
     rec.set_extra("alphabet_sizes_covered", json!("2..=256, all"));
